@@ -228,6 +228,14 @@ def bit_xor(eng, a, b):
 def binop(eng, op, a, b, node):
     a0, b0 = a, b
     a, b = eng.deref(a), eng.deref(b)
+    if isinstance(op, ast.BitOr) and all(isinstance(x, VClass) or (isinstance(x, VTuple) and getattr(x, "class_union", False)) for x in (a, b)):
+        # PEP 604 union of classes (isinstance(x, A | B)): the tuple of its members
+        items = []
+        for x in (a, b):
+            items += x.items if isinstance(x, VTuple) else [x]
+        u = VTuple(items)
+        u.class_union = True
+        return u
     ia, ib = as_int(eng, a), as_int(eng, b)
     if ia is not None and ib is not None:
         if isinstance(op, ast.Add):
